@@ -33,6 +33,8 @@ struct Run<'a> {
     next_value: u64,
     aborted: bool,
     orphaned: Vec<(AbsTx, CompactTx)>,
+    /// also project the note commitment trees (C06) after every operation
+    trees: bool,
 }
 
 impl<'a> Run<'a> {
@@ -40,10 +42,19 @@ impl<'a> Run<'a> {
         let mut rng = ChaChaRng::seed_from_u64(seed);
         let (w, keys) = W::new(ironwood);
         let chain = Chain::new(w.base, keys, &mut rng, ironwood);
-        let r = Run { w, chain, out, rng, ironwood, next_value: 0, aborted: false, orphaned: vec![] };
-        let post = r.w.project(&r.chain);
+        let trees = std::env::var("VERIF_TREES").map(|v| v == "1").unwrap_or(false);
+        let mut r = Run { w, chain, out, rng, ironwood, next_value: 0, aborted: false, orphaned: vec![], trees };
+        let post = r.post();
         r.out.emit(&json!({"a": "reset", "hist": label, "ironwood": ironwood, "post": post}));
         r
+    }
+
+    fn post(&mut self) -> Value {
+        let mut p = self.w.project(&self.chain);
+        if self.trees {
+            p["trees"] = self.w.project_trees(&self.chain);
+        }
+        p
     }
 
     fn abs(&self, rel: u32) -> u32 {
@@ -69,7 +80,7 @@ impl<'a> Run<'a> {
     fn block(&mut self, txs: &[TxReq], remined: &[(AbsTx, CompactTx)], check: bool) -> u32 {
         let h = self.chain.extend_with(&self.w.net, txs, remined, &mut self.rng);
         let mut ev = self.block_event(h);
-        ev["post"] = if check { self.w.project(&self.chain) } else { json!({"chk": false}) };
+        ev["post"] = if check { self.post() } else { json!({"chk": false}) };
         self.out.emit(&ev);
         h
     }
@@ -100,7 +111,7 @@ impl<'a> Run<'a> {
     fn tip(&mut self, h: u32) {
         let res = self.w.update_tip(h);
         let (c, e) = res_class(&res);
-        let post = self.w.project(&self.chain);
+        let post = self.post();
         self.out.emit(&json!({"a": "tip", "h": self.w.rel(h), "res": c, "err": e, "post": post}));
         self.aborted |= c == "panic";
     }
@@ -113,7 +124,7 @@ impl<'a> Run<'a> {
     fn scan(&mut self, from: u32, limit: usize) -> bool {
         let res = self.w.scan(&self.chain, from, limit);
         let (c, e) = res_class(&res);
-        let post = self.w.project(&self.chain);
+        let post = self.post();
         self.out.emit(&json!({"a": "scan", "from": self.w.rel(from), "n": limit, "res": c, "err": e, "post": post}));
         self.aborted |= c == "panic";
         c == "ok"
@@ -137,7 +148,7 @@ impl<'a> Run<'a> {
             }
             self.chain.truncate(to_abs);
         }
-        let post = self.w.project(&self.chain);
+        let post = self.post();
         self.out.emit(&json!({"a": "trunc", "req": self.w.rel(req), "res": c, "err": e,
                               "to": to_abs.map(|h| self.w.rel(h)).unwrap_or(-1), "fork": fork, "post": post}));
         self.aborted |= c == "panic";
